@@ -424,6 +424,16 @@ pub fn run_history(rng: &mut Rng, mix: Mix) -> Outcome {
             m.sec[(i % 3) as usize].push(r);
             i += 1;
         }
+        if rng.chance(1, 2) {
+            // an OPT record advertising a payload above the library's own limit changes nothing about that limit
+            let payload = *rng.pick(&[512u16, 4096, 8193, 16384, 65535]);
+            let opt = Record { name: Name::root(), rtype: T_OPT, class: payload, ttl: 0, rdata: RData::Opt(vec![(10, vec![1, 2, 3, 4, 5, 6, 7, 8])]) };
+            let at = rng.below(m.sec[2].len() + 1);
+            while m.encode_literal().len() + opt.wire_literal().len() > goal && !m.sec[0].is_empty() {
+                m.sec[0].pop();
+            }
+            m.sec[2].insert(at, opt);
+        }
         let lit = m.encode_literal();
         let b = Compress::compress(&lit).unwrap_or(lit);
         match DNSSector::new(b.clone()).unwrap().parse() {
